@@ -130,6 +130,15 @@ Proof.
          det_tac; fail).
 Qed.
 
+Lemma footprints_sound :
+  forall (m : wbmode) (l : local) (s s' : state),
+    (forall x, memL x (snd (fp l)) = false -> eq_on x (snd (step m l s)) s)
+    /\ ((forall x, memL x (fst (fp l)) = true -> eq_on x s s') ->
+        fst (step m l s) = fst (step m l s')
+        /\ forall x, memL x (snd (fp l)) = true ->
+                     eq_on x (snd (step m l s)) (snd (step m l s'))).
+Proof. intros m l s s'. split; [intro x; apply step_frame|apply step_det]. Qed.
+
 Local Transparent refresh_outputs cancel_tx cancel_log_entry kernel_loop ttl_loop after_refresh
       scan_next after_scan_body classify build_send upsert_entry upsert_out delete_out
       find_entry mine_block update_nth nth_error outstanding N.leb N.eqb N.ltb N.add N.sub
